@@ -191,6 +191,23 @@ def signature(t: dict[str, Any], label: str, j: int) -> dict[str, Any]:
     return sig
 
 
+def synthetic_ok_trace() -> dict[str, Any]:
+    a, b = [0x22, 0x12, 0x34], [0x10, 0x03]
+
+    def ex(req: list[int], replies: list[list[int]], out: str, st: list[int]) -> dict[str, Any]:
+        return {"req": req, "nw": 1, "replies": replies, "out": out, "st": st, "impl": "on", "ana": False}
+
+    def row(req: list[int], resp: list[int] | None, exc: bool, st: list[int], send: int) -> dict[str, Any]:
+        return {"okDecode": True, "req": req, "hasResp": resp is not None, "resp": resp or [], "hasExc": exc,
+                "st": st, "mode": "implicit", "send": send, "hasRecv": not exc, "recv": send + 7 if not exc else 0}
+
+    return {"id": 0, "closed": True, "aborted": False, "stray": 0,
+            "exch": [ex(a, [[0x62, 0x12, 0x34, 1]], "ret", [1, -1]), ex(b, [[0x50, 3]], "ret", [1, -1]),
+                     ex(a, [], "exc", [3, -1]), ex(a, [[0x62, 0x12, 0x34, 2]], "ret", [3, -1])],
+            "rows": [row(a, [0x62, 0x12, 0x34, 1], False, [1, -1], 100), row(b, [0x50, 3], False, [1, -1], 200),
+                     row(a, None, True, [3, -1], 300), row(a, [0x62, 0x12, 0x34, 2], False, [3, -1], 400)]}
+
+
 # --------------------------------------------------------------------------- spec -> code
 
 KIND_SPEC = {
@@ -494,9 +511,17 @@ def run(tier: str, seed: int) -> Report:
     # ---- 5. binding self-tests: corrupted accepted traces must be rejected
     okt = [t for i, t in enumerate(traces) if verdicts[i][0] == "ok" and t["closed"] and len(t["rows"]) >= 3
            and any(r["hasRecv"] for r in t["rows"])]
-    if not okt:
+    if okt:
+        base = json.loads(json.dumps({k: okt[0][k] for k in TRACE_KEYS}))
+        rep.extra["binding_selftest_base"] = "recorded run"
+    elif rep.violations:
+        # every multi-row run of this tree is already rejected: corrupt a synthetic accepted run instead
+        base = synthetic_ok_trace()
+        rep.extra["binding_selftest_base"] = "synthetic (no recorded multi-row run was accepted)"
+    else:
         raise Machinery("no accepted multi-row run to corrupt for the binding self-test")
-    base = json.loads(json.dumps({k: okt[0][k] for k in TRACE_KEYS}))
+    if validate([{**base, "id": 0}])[0][0] != "ok":
+        raise Machinery("binding self-test: the uncorrupted base trace is not accepted")
     muts: list[tuple[str, dict[str, Any]]] = []
 
     def mut(name: str) -> dict[str, Any]:
